@@ -189,7 +189,7 @@ def run_tlc(module, cfg=None, workers=None, env=None, timeout=900, simulate=None
 def require_clean(r, what):
     """TLC must have finished without evaluation errors (violated invariants are reported separately)."""
     if r.errors or r.rc not in (0, 12, 13) and not r.violated and not r.postcondition_failed:
-        raise Machinery('%s: TLC failed rc=%s\n%s\n%s' % (what, r.rc, '\n'.join(r.errors)[:3000], r.out[-3000:]))
+        raise Machinery('%s: TLC failed rc=%s\n%s\n%s' % (what, r.rc, '\n'.join(r.errors)[:900], r.out[-600:]))
     return r
 
 
